@@ -581,3 +581,14 @@ VARIANTS += [
     dict(prop="C12", name="rename-prss-rng-halves-swapped", expect="WIRE-passes|direction-to-generator",
          edits=[dict(file=DPF, find="            let (mut left, mut right) = ctx.prss_rng();\n            let rng = match direction_to_excluded_helper {\n                Direction::Left => &mut right,\n                Direction::Right => &mut left,\n            };", replace="            let (mut right, mut left) = ctx.prss_rng();\n            let rng = match direction_to_excluded_helper {\n                Direction::Left => &mut right,\n                Direction::Right => &mut left,\n            };")]),
 ]
+
+AGF = "ipa-core/src/protocol/ipa_prf/aggregation/mod.rs"
+VARIANTS += [
+    dict(prop="C07", name="aggregate-grows-one-bit-too-far", expect="WIRE-aggregate|grow-while-narrower-than-output",
+         edits=[dict(file=AGF, find="                                if a.len() < usize::try_from(OV::BITS).unwrap() {", replace="                                if a.len() <= usize::try_from(OV::BITS).unwrap() {")]),
+    dict(prop="C07", name="aggregate-adds-a-to-a", expect="WIRE-aggregate|integer_sat_add:operands-are-the-pair",
+         edits=[dict(file=AGF, find="                                        record_id,\n                                        &a,\n                                        &b,\n                                    )\n                                    .await\n                                }", replace="                                        record_id,\n                                        &a,\n                                        &a,\n                                    )\n                                    .await\n                                }")]),
+    dict(prop="C07", name="aggregate-carry-dropped", expect="WIRE-aggregate|carry-becomes-top-bit",
+         edits=[dict(file=AGF, find="                                    let (mut sum, carry) = integer_add::<_, AdditionStep, B>(", replace="                                    let (sum, _carry) = integer_add::<_, AdditionStep, B>("),
+                dict(file=AGF, find="                                    sum.push(carry);\n", replace="")]),
+]
